@@ -1,6 +1,7 @@
 package sx
 
 import (
+	"io/fs"
 	"fmt"
 	"strconv"
 	"strings"
@@ -403,13 +404,14 @@ type fsFile struct {
 	Mode    *smt.Term // permission bits
 	HasData *smt.Term // Bool: key material was written
 	Created bool      // created by this process (fchmod cannot fail then)
+	Link    *smt.Term // Bool: the path is a symbolic link to the (existing) file described here
 }
 
 func (ex *Exec) fsGet(name string) *fsFile {
 	if f, ok := ex.fs[name]; ok {
 		return f
 	}
-	f := &fsFile{Exists: smt.False, Mode: smt.I64(0), HasData: smt.False}
+	f := &fsFile{Exists: smt.False, Mode: smt.I64(0), HasData: smt.False, Link: smt.False}
 	ex.fs[name] = f
 	return f
 }
@@ -527,6 +529,21 @@ func registerBinaryModels(P *Program) {
 				return t.v, true
 			}
 		}
+		// the eight bytes of one 64-bit value, wherever they were copied to
+		if b0, ok := b.A.E[b.Off].V.(*smt.Term); ok && b0.Op == smt.OMod && len(b0.Args) == 2 {
+			v := b0.Args[0]
+			if v.Lo != nil && v.Lo.Sign() >= 0 && v.Hi != nil && v.Hi.BitLen() <= 64 {
+				same := true
+				for k := 0; k < 8; k++ {
+					if b.A.E[b.Off+k].V != Value(smt.Mod(smt.Div(v, smt.Pow2(uint(8*k))), smt.I64(256))) {
+						same = false
+					}
+				}
+				if same {
+					return v, true
+				}
+			}
+		}
 		r := smt.I64(0)
 		for k := 0; k < 8; k++ {
 			r = smt.Add(r, smt.Mul(term(ex.load(b.A.E[b.Off+k])), smt.Pow2(uint(8*k))))
@@ -606,6 +623,35 @@ func registerFsModels(P *Program) {
 	m["(*os.File).Close"] = func(ex *Exec, fn *ssa.Function, args []Value) (Value, bool) {
 		fileOf(ex, args[0])
 		return Iface{}, true
+	}
+	// Lstat/Stat: the FileInfo is a *os.fileStat whose only modelled method is Mode()
+	statModel := func(follow bool) ModelFn {
+		return func(ex *Exec, fn *ssa.Function, args []Value) (Value, bool) {
+			name, ok := args[0].(string)
+			if !ok {
+				ex.unsupported("os.Stat/Lstat with symbolic name")
+			}
+			f := ex.fsGet(name)
+			if !ex.branch(f.Exists) {
+				return Tuple{Iface{}, ex.freshError("no such file")}, true
+			}
+			mode := f.Mode
+			if !follow && ex.branch(f.Link) {
+				mode = smt.I64(int64(fs.ModeSymlink | 0o777))
+			}
+			ex.stubs["POSIX model of os.Stat/Lstat: Lstat of a symbolic link reports ModeSymlink|0777, everything else the permission bits of a regular file; open/fchmod follow links"] = true
+			osPkg := ex.P.Prog.ImportedPackage("os")
+			if osPkg == nil || osPkg.Type("fileStat") == nil {
+				ex.unsupported("os.fileStat not found")
+			}
+			ex.cellSeq++
+			return Tuple{Iface{T: types.NewPointer(osPkg.Type("fileStat").Type()), V: Pointer{C: &Cell{ID: ex.cellSeq, V: &Opaque{Kind: "os.fileStat", Data: mode}}}}, Iface{}}, true
+		}
+	}
+	m["os.Lstat"] = statModel(false)
+	m["os.Stat"] = statModel(true)
+	m["(*os.fileStat).Mode"] = func(ex *Exec, fn *ssa.Function, args []Value) (Value, bool) {
+		return args[0].(Pointer).C.V.(*Opaque).Data.(*smt.Term), true
 	}
 	m["os.Open"] = func(ex *Exec, fn *ssa.Function, args []Value) (Value, bool) {
 		name, ok := args[0].(string)
